@@ -13,10 +13,42 @@ pub const NSLOTS: usize = 64;
 pub const SLOT: usize = 1 << 17;
 
 static BASE: AtomicUsize = AtomicUsize::new(0);
-static NEXT_SLOT: AtomicUsize = AtomicUsize::new(0);
+
+// Slots are owned by live threads: a thread takes a free slot on first use and gives it back
+// when it exits (explorers spawn thousands of short-lived threads; a slot must never be shared
+// with, or cleared by, another thread while its owner is still running a case).
+static SLOT_TAKEN: [std::sync::atomic::AtomicBool; NSLOTS] = [const { std::sync::atomic::AtomicBool::new(false) }; NSLOTS];
+
+struct SlotGuard(Option<usize>);
+impl Drop for SlotGuard {
+    fn drop(&mut self) {
+        if let Some(i) = self.0 {
+            let base = BASE.load(Ordering::Relaxed);
+            if base != 0 {
+                let p = (base + i * SLOT) as *mut u8;
+                // SAFETY: own slot inside the mapping.
+                unsafe {
+                    let cnt = p as *mut u64;
+                    std::ptr::write_volatile(cnt, std::ptr::read_volatile(cnt).wrapping_add(1));
+                    std::ptr::write_volatile(p.add(8) as *mut u32, 0);
+                }
+            }
+            SLOT_TAKEN[i].store(false, Ordering::Release);
+        }
+    }
+}
 
 thread_local! {
-    static MY_SLOT: usize = NEXT_SLOT.fetch_add(1, Ordering::Relaxed) % NSLOTS;
+    static MY_SLOT: SlotGuard = {
+        let mut got = None;
+        for i in 0..NSLOTS {
+            if SLOT_TAKEN[i].compare_exchange(false, true, Ordering::AcqRel, Ordering::Relaxed).is_ok() {
+                got = Some(i);
+                break;
+            }
+        }
+        SlotGuard(got)
+    };
 }
 
 fn map_file(path: &str, create: bool) -> *mut u8 {
@@ -59,7 +91,8 @@ pub fn set_case(s: &str) {
     if base == 0 {
         return;
     }
-    MY_SLOT.with(|slot| {
+    MY_SLOT.with(|g| {
+        let Some(slot) = g.0 else { return };
         let p = (base + slot * SLOT) as *mut u8;
         let bytes = s.as_bytes();
         let n = bytes.len().min(SLOT - 16);
@@ -80,7 +113,8 @@ pub fn tick() {
     if base == 0 {
         return;
     }
-    MY_SLOT.with(|slot| {
+    MY_SLOT.with(|g| {
+        let Some(slot) = g.0 else { return };
         let p = (base + slot * SLOT) as *mut u64;
         // SAFETY: own slot.
         unsafe { std::ptr::write_volatile(p, std::ptr::read_volatile(p).wrapping_add(1)) };
@@ -92,7 +126,8 @@ pub fn clear_case() {
     if base == 0 {
         return;
     }
-    MY_SLOT.with(|slot| {
+    MY_SLOT.with(|g| {
+        let Some(slot) = g.0 else { return };
         let p = (base + slot * SLOT) as *mut u8;
         // SAFETY: own slot.
         unsafe {
